@@ -1,8 +1,10 @@
 //! Correspondence harness: executes the line protocol against the real zvt code.
 mod codec;
 mod gen_dispatch;
-
 use std::io::{BufRead, Write};
+use std::sync::atomic::Ordering;
+mod alloc;
+use alloc::{ALLOCATED, DEC_ALLOC};
 
 fn handle(line: &str) -> String {
     let parts: Vec<&str> = line.split_whitespace().collect();
@@ -37,10 +39,34 @@ fn main() {
     let stdin = std::io::stdin();
     let stdout = std::io::stdout();
     let mut out = std::io::BufWriter::new(stdout.lock());
+    let watchdog = std::env::var("HARNESS_NO_WATCHDOG").is_err();
+    let stats = std::env::var("HARNESS_ALLOC_STATS").is_ok();
+    let mut max_ratio = 0f64;
     for line in stdin.lock().lines() {
         let Ok(line) = line else { break };
-        let res = handle(&line);
+        ALLOCATED.store(0, Ordering::Relaxed);
+        DEC_ALLOC.store(0, Ordering::Relaxed);
+        let started = std::time::Instant::now();
+        let mut res = handle(&line);
+        // watchdog: decoding may allocate only a small multiple of its input (bound calibrated on the unchanged
+        // tree: the largest ratio observed is below 64 x input + 16 KiB, Debug formatting and re-encoding included)
+        // DEC_ALLOC: bytes allocated by zvt_deserialize / zvt_parse alone (Debug formatting and re-encoding excluded)
+        let used = DEC_ALLOC.load(Ordering::Relaxed);
+        let bound = 64 * (line.len() / 2) + (16 << 10);
+        if watchdog && (line.starts_with("dec ") || line.starts_with("parse ")) {
+            if used > bound {
+                res = format!("alloc-exceeded:{}", used);
+            } else if started.elapsed().as_secs() >= 5 {
+                res = "slow".to_string();
+            }
+        }
+        if stats {
+            max_ratio = max_ratio.max(used as f64 / (line.len() as f64 + 64.0));
+        }
         writeln!(out, "{}", res).unwrap();
     }
     out.flush().unwrap();
+    if stats {
+        eprintln!("max alloc ratio (bytes allocated / (line length + 64)): {:.1}", max_ratio);
+    }
 }
